@@ -27,7 +27,7 @@ Section cands.
      them decides, otherwise all are returned (and process then fails: see process_singleton) *)
   Definition decide (n : node) (top : bool) (own : list ty * list rerr) : RecResult :=
     match fst own with
-    | [] => ([], RE (if top then [nmark n] else []) [] (snd own))
+    | [] => ([], RE (if top || is_nil (snd own) then [nmark n] else []) [] (snd own))
     | [_] =>
         if negb (uprefix core_prefix (ntag n)) then
           match class_of_tag reg (ntag n) with
@@ -59,7 +59,7 @@ Section cands.
            let found := fst own in
            let causes := snd own in
            match found with
-           | [] => Ok ([], RE (if top then [nmark n] else []) [] causes)
+           | [] => Ok ([], RE (if top || is_nil causes then [nmark n] else []) [] causes)   (* a leaf always cites the node (fix c13638b) *)
            | [_] =>
                if negb (uprefix core_prefix (ntag n)) then
                  match class_of_tag reg (ntag n) with
